@@ -333,8 +333,22 @@ pub fn check_point(root: &Path, n: usize, h1: u64, h2: u64, rep: &mut Report) ->
     bad
 }
 
+thread_local! {
+    /// which of the odd base directories the current point runs under (0 = the ordinary one)
+    static ODD_ROOT: std::cell::Cell<usize> = const { std::cell::Cell::new(0) };
+}
+
+fn odd_roots(sc: &Scratch) -> Vec<std::path::PathBuf> {
+    use std::os::unix::ffi::OsStrExt;
+    let v = vec![sc.path("odd").join(std::ffi::OsStr::from_bytes(b"cach\xe9\xff")), sc.path("odd").join("a b \u{e9}\u{4e16}")];
+    for r in &v {
+        shim::passthrough(|| std::fs::create_dir_all(r).unwrap());
+    }
+    v
+}
+
 fn case_json(n: usize, h1: u64, h2: u64) -> Value {
-    json!({"num_shards": n, "hash": h1.to_string(), "secondary_hash": h2.to_string()})
+    json!({"num_shards": n, "hash": h1.to_string(), "secondary_hash": h2.to_string(), "odd_root": ODD_ROOT.with(|o| o.get())})
 }
 
 fn run_point(root: &Path, n: usize, h1: u64, h2: u64, rep: &mut Report) {
@@ -381,7 +395,7 @@ pub fn run(tier: Tier, shard: Shard, rep: &mut Report) {
         side of every shard boundary (+ raw extremes) x secondary hashes landing on the same / next / previous shard \
         (+ raw extremes); per point: probe paths of get on an empty dir, location after put through a fresh handle, \
         cross-handle lookup, secondary-shard hit/touch/set, ReadOnlyCache and stacked Cache lookups, all compared with \
-        an independent reimplementation. Non-trivial = distinctness fix-up applies or a first/last shard is involved."
+        an independent reimplementation; every 41st point again under a base directory whose name is not valid UTF-8 and under one with a space and multi-byte characters. Non-trivial = distinctness fix-up applies or a first/last shard is involved."
         .into();
     rep.assumptions = vec![
         "the 2^128 hash pairs are covered by a boundary grid, not exhausted".into(),
@@ -391,6 +405,7 @@ pub fn run(tier: Tier, shard: Shard, rep: &mut Report) {
     let sc = Scratch::new();
     let root = sc.path("sharded");
     shim::passthrough(|| std::fs::create_dir_all(&root).unwrap());
+    let odd_roots = odd_roots(&sc);
     let mut no = 0u64;
     for n in shard_counts(tier) {
         for h1 in primaries(n) {
@@ -400,6 +415,16 @@ pub fn run(tier: Tier, shard: Shard, rep: &mut Report) {
                     continue;
                 }
                 run_point(&root, n, h1, h2, rep);
+                // the directory's own name is not part of the function: every 41st point is repeated under a base
+                // directory whose name is not valid UTF-8, and under one with a space and a multi-byte character
+                if no % 41 == 0 {
+                    for (oi, odd) in odd_roots.iter().enumerate() {
+                        rep.count("odd_base_directory_points", 1);
+                        ODD_ROOT.with(|o| o.set(oi + 1));
+                        run_point(odd, n, h1, h2, rep);
+                        ODD_ROOT.with(|o| o.set(0));
+                    }
+                }
                 if no % 9973 == 0 {
                     rep.sample(json!({"case": case_json(n, h1, h2), "expected_shards": expected_shards(h1, h2, n)}));
                 }
@@ -420,5 +445,13 @@ pub fn replay(case: &Value, rep: &mut Report) {
     let sc = Scratch::new();
     let root = sc.path("sharded");
     shim::passthrough(|| std::fs::create_dir_all(&root).unwrap());
+    let odd = case["odd_root"].as_u64().unwrap_or(0) as usize;
+    if odd > 0 {
+        let roots = odd_roots(&sc);
+        ODD_ROOT.with(|o| o.set(odd));
+        run_point(&roots[odd - 1], n, h1, h2, rep);
+        ODD_ROOT.with(|o| o.set(0));
+        return;
+    }
     run_point(&root, n, h1, h2, rep);
 }
